@@ -53,6 +53,8 @@ def corpus():
         "ip " + v6h.format(plen=40, nh=60) + "2b00000000000000" + "3c00000000000000" + "3c00000000000000" + "0000000000000000" + "3b00000000000000",
         # auth, auth with zero payload length behind it
         "ip " + v6h.format(plen=24, nh=51) + "3301000000000000" + "00000000" + "1100000000000000" + "00000000",
+        # ARP behind a bare ether type (lax: payload must be Empty since d79cab6)
+        "et:2054 0001080006040001aabbccddeeff0a000001000000000000c0a80001",
         # lax/iter witness (F2)
         "ip 6000000000083c40" + "00" * 32 + "2b00000000000000",
     ]
@@ -268,10 +270,10 @@ def strict_oracle(ent, data, H, S, cmp):
         if cmp not in ("eq", "-"):
             return ("same layers and payload but header values differ: hdrs=%s (%s)" % (cmp, H), None)
         return None
-    # F11: cut-short first IPv4 header at the bare-IP entry point: both reject, records differ
-    if ent == "ip" and 0 < len(data) < 20 and data[0] >> 4 == 4 and H.startswith("err") and S.startswith("err"):
-        return ("from_ip on a cut-short first IPv4 header: struct decoding says '%s', slicing '%s'" % (H, S),
-                "F11_cut_short_first_ip_header")
+    # both reject: the verdict is the same; the error RECORDS are the subject of C06/C07 (they differ in the
+    # F11 class: cut-short first IPv4 header at the bare-IP entry point), not of this property
+    if H.startswith("err") and S.startswith("err"):
+        return None
     # the documented exception
     hf = _fields(H) if H.startswith("ok") else None
     if hf and hf["net"].startswith("v6(") and hf["tr"] == "none" and hf["pl"].startswith("ip("):
@@ -308,8 +310,17 @@ def _lax_fields(x):
     return dict(zip(("link", "exts", "net", "tr", "pl", "stop"), m.groups()))
 
 
+def _pl_kind_win(pl):
+    """'udp(0,42+0)' -> ('udp', '42+0'); 'empty' -> ('empty', None)"""
+    if "(" not in pl:
+        return (pl, None)
+    return (pl[:pl.index("(")], pl[:-1].split(",")[-1])
+
+
 def lax_oracle(ent, data, lax):
-    """lax families on the implementation side: 'lax H=.. S=.. hdrs=.. pl=.. stop=..'"""
+    """lax families on the implementation side: 'lax H=.. S=.. hdrs=.. pl=.. stop=..'.
+    The property asks for: the same headers, a payload of the same kind covering the same byte range, the same
+    verdict (Err vs Ok; stopped or not and the layer of the stop).  Error record details belong to C06/C07."""
     if lax in ("lax=todo", ""):
         return None
     if "PANIC" in lax:
@@ -318,52 +329,30 @@ def lax_oracle(ent, data, lax):
     if not m:
         return ("unparsable lax line '%s'" % lax, None)
     H, S, hd, pl, st = m.groups()
-    f11 = "F11_cut_short_first_ip_header"
     if H.startswith("err") or S.startswith("err"):
-        if H == S:
+        if H.startswith("err") and S.startswith("err"):
             return None
-        if H.startswith("err") and S.startswith("err") and ent == "ip" and 0 < len(data) < 20 and data[0] >> 4 == 4:
-            return ("lax from_ip on a cut-short first IPv4 header: '%s' vs '%s'" % (H, S), f11)
         return ("lax verdicts differ: '%s' vs '%s'" % (H, S), None)
     hf, sf = _lax_fields(H), _lax_fields(S)
     if hf is None or sf is None:
         return ("unparsable lax result '%s' / '%s'" % (H, S), None)
-    if hf == sf and hd == "eq":
-        return None
     # documented exception: the struct family stopped in front of an extension header without slot
     mm = re.match(r"ip\((\d+),", hf["pl"])
     if mm and mm.group(1) in EXT_KINDS and hf["net"].startswith("v6(") and hf["tr"] == "none" \
             and hd in ("eq", "diff(transport)") and (hf["link"], hf["exts"]) == (sf["link"], sf["exts"]) \
-            and hf["stop"] == "none":
+            and hf["stop"] == "none" and hf != sf:
         return None
     if hd != "eq":
         return ("lax header values differ (%s): %s" % (hd, lax), None)
-    why = []
-    klass = []
     for k in ("link", "exts", "net", "tr"):
         if hf[k] != sf[k]:
             return ("lax layers differ (%s): %s" % (k, lax), None)
-    if hf["pl"] != sf["pl"]:
-        if hf["net"].startswith("arp(") and sf["pl"] == "empty" and hf["pl"].startswith("ether(2054,"):
-            pass      # LaxPacketHeaders keeps the ether payload behind ARP; there is no payload notion on the slice side
-        elif hf["pl"].startswith("ether(") and hf["pl"].replace(",macsecsl,", ",slice,", 1) == sf["pl"]:
-            klass.append("F14_lax_ether_payload_len_source")
-            why.append("payload len_source %s vs %s" % (hf["pl"], sf["pl"]))
-        else:
-            return ("lax payloads differ: %s" % lax, None)
-    if hf["stop"] != sf["stop"]:
-        if hf["stop"].replace(",slice,", ",macsecsl,", 1) == sf["stop"]:
-            klass.append("F13_lax_len_source_after_macsec")
-            why.append("stop error len_source %s vs %s" % (hf["stop"], sf["stop"]))
-        elif hf["stop"].startswith("IpHeader:len 20,") and "Ipv4Header" in hf["stop"] and sf["stop"].startswith("IpHeader:") \
-                and ("content IpIhl" in sf["stop"] or "Ipv4Header" in sf["stop"]):
-            klass.append(f11)
-            why.append("stop error on a cut-short first IPv4 header %s vs %s" % (hf["stop"], sf["stop"]))
-        else:
-            return ("lax stop errors differ: %s" % lax, None)
-    if not klass:
-        return None
-    return ("lax families: " + "; ".join(why), klass[0])
+    if _pl_kind_win(hf["pl"]) != _pl_kind_win(sf["pl"]):
+        return ("lax payloads differ: %s" % lax, None)
+    hs, ss = hf["stop"], sf["stop"]
+    if (hs == "none") != (ss == "none") or hs.split(":")[0] != ss.split(":")[0]:
+        return ("lax stop verdicts differ: %s" % lax, None)
+    return None
 
 
 def _nontrivial(line):
@@ -413,15 +402,15 @@ def compare(ctx, cases, impl, model_lines):
                     if not f11:
                         corr.append((i, "model of PacketHeaders '%s' [%s] differs from the cut slicing model '%s' [%s]" % (hm, hw, cm, cw)))
                 # oracle 1: implementation against the specification of the property (cut slicing, converted)
-                if H != cm:
-                    f11 = ent == "ip" and 0 < len(data) < 20 and data[0] >> 4 == 4 and H.startswith("err") and cm.startswith("err")
-                    orc.append((i, "%s: PacketHeaders '%s' but slicing cut at the first refilled extension gives '%s'" % (prof, H, cm),
-                                "F11_cut_short_first_ip_header" if f11 else None))
+                if H != cm and not (H.startswith("err") and cm.startswith("err")):
+                    orc.append((i, "%s: PacketHeaders '%s' but slicing cut at the first refilled extension gives '%s'" % (prof, H, cm), None))
             # oracle 2: the relation between the two implementation answers
             o = strict_oracle(ent, data, H, S, cmp)
             if o:
                 orc.append((i, "%s: %s" % (prof, o[0]), o[1]))
-                klass = "f11" if o[1] else "violation"
+                klass = "violation"
+            elif H.startswith("err") and S.startswith("err") and H != S:
+                klass = "agree-err-record-differs(F11)"
             elif H == S:
                 klass = "agree-ok" if H.startswith("ok") else "agree-err"
             else:
